@@ -355,6 +355,55 @@ def run_reservoir(case):
             "sample": {"seed": sd, "idx": idx, "source_amount": X0, "events_per_step": lam_max, "cells": n, "space": space["type"]}}
 
 
+def run_large(case):
+    """systems of 4100-5300 cells (state and chemostat arrays beyond 4096 / 8192 entries, flags up to the last entry):
+    one Euler step against the masked reference law, flagged entries bitwise constant under Euler and tau-leap"""
+    use_repo()
+    engines.install()
+    sd, idx = case["seed"], case["idx"]
+    r = gen.rng_for(sd, "C03large", idx)
+    desc = gen.large_system(r) if case.get("shape", "cells") == "cells" else gen.many_species_system(r)
+    S, n = len(desc["species"]), gen.ncells(desc["space"])
+    state, chst = desc["state"], desc["chemostats"]
+    bad, counts = [], {"large_systems": 1}
+    system = gen.render_system(desc, gen.Rendering(r, molecule_state=True))
+    f_mask, mag = ref.rate_law(desc, state, chst)
+    dt = 0.02 / ref.max_rate(desc, state)
+    for kind_ in ("euler", "tauleap"):
+        script = simhelp.make_script(system, r, dt_si=dt, t_sample_si=[0.0], policy="on_iteration", t_max_si=2.5 * dt, isp="none",
+                                     usys=(gen.mild_sys(r)[0], gen.mild_sys(r)[1], "molecule"), seed=r.randrange(2 ** 31))
+        t, d, complete, out = simhelp.run_script(kind_, script, 3)
+        if d.shape[0] < 2:
+            bad.append({"what": "large system: no record after one step", "engine": kind_, "case": case})
+            continue
+        x0 = d[0].reshape(-1)
+        for k in range(S * n):
+            if x0[k] != state[k]:
+                bad.append({"what": "large system: the t = 0 record is not the state handed over", "engine": kind_, "entry": k, "got": float(x0[k]),
+                            "expected": state[k], "entries": S * n, "case": case})
+                break
+        for j in range(1, d.shape[0]):
+            xj = d[j].reshape(-1)
+            for k in range(S * n):
+                if chst[k]:
+                    counts["large_flagged_entry_samples"] = counts.get("large_flagged_entry_samples", 0) + 1
+                    if xj[k] != state[k]:
+                        bad.append({"what": "large system: a flagged entry changed", "engine": kind_, "entry": k, "sample": j, "got": float(xj[k]),
+                                    "expected": state[k], "entries": S * n, "case": case})
+                        break
+        if kind_ == "euler" and not bad:
+            x1 = d[1].reshape(-1)
+            for k in range(S * n):
+                counts["large_euler_step_entries"] = counts.get("large_euler_step_entries", 0) + 1
+                want = state[k] + dt * f_mask[k]
+                if abs(x1[k] - want) > 1e-11 * (dt * mag[k] + abs(want)) + 1e-300:
+                    bad.append({"what": "large system: Euler step differs from the (chemostat-masked) rate law", "entry": k, "flag": chst[k],
+                                "got": float(x1[k]), "expected": want, "entries": S * n, "case": case})
+                    break
+    return {"bad": bad[:4], "counts": counts, "key": chash(["large", sd, idx]), "nontrivial": True,
+            "sample": {"seed": sd, "idx": idx, "cells": n, "species": S, "space": desc["space"]["type"], "flags": sum(chst)}}
+
+
 def main():
     if len(sys.argv) > 2 and sys.argv[1] == "--replay":
         import json
@@ -403,6 +452,9 @@ def main():
     _run_extra(run, "vf.checks.c03:run_reservoir", [{"seed": _seed(), "idx": _i} for _i in range(3000 if _tier() == "thorough" else 300)],
                cpu_budget=60, kind_prefix="")
     run.require("reservoir_entries_judged", "reservoir_cases_beyond_2^31_events_per_channel")
+    _run_extra(run, "vf.checks.c03:run_large", [{"seed": _seed(), "idx": _i, "shape": "cells"} for _i in range(60 if _tier() == "thorough" else 8)] +
+               [{"seed": _seed(), "idx": 1000 + _i, "shape": "species"} for _i in range(400 if _tier() == "thorough" else 60)], cpu_budget=240)
+    run.require("large_euler_step_entries", "large_flagged_entry_samples")
     return run.finish()
 
 
